@@ -57,11 +57,11 @@ theorem InTrie.nil_iff {rs ss ds r} : InTrie (.node rs ss ds) [] r ↔ r ∈ rs 
 
 /-- well-formed: static keys pairwise distinct, dynamic entries are dynamic parts, recursively -/
 inductive WF : State → Prop
-  | node {rs ss ds} : (ss.map (·.1)).Nodup → (∀ p s, (p, s) ∈ ds → p.isDyn = true) →
+  | node {rs ss ds} : (ss.map (·.1)).Nodup → (ds.map (·.1)).Nodup → (∀ p s, (p, s) ∈ ds → p.isDyn = true) →
       (∀ k s, (k, s) ∈ ss → WF s) → (∀ p s, (p, s) ∈ ds → WF s) → WF (.node rs ss ds)
 
 theorem WF.empty : WF State.empty :=
-  .node (by simp) (by intro _ _ h; cases h) (by intro _ _ h; cases h) (by intro _ _ h; cases h)
+  .node (by simp) (by simp) (by intro _ _ h; cases h) (by intro _ _ h; cases h) (by intro _ _ h; cases h)
 
 theorem lookupStatic_of_mem {ss : List (Str × State)} {k s} (hnd : (ss.map (·.1)).Nodup) (hm : (k, s) ∈ ss) :
     lookupStatic k ss = some s := by
@@ -89,45 +89,273 @@ theorem mem_of_lookupStatic {ss : List (Str × State)} {k s} (h : lookupStatic k
       subst this; cases h; simp
     · exact List.mem_cons_of_mem _ (ih h)
 
-/-! ### `updAssoc` -/
+/-! ### association lists with distinct keys, `updAssoc` -/
 
-theorem mem_updAssoc {κ} [DecidableEq κ] {k : κ} {f : State → State} {l : List (κ × State)} {k' s'} :
-    (k', s') ∈ updAssoc k f l →
-      ((k', s') ∈ l ∧ k' ≠ k) ∨ (k' = k ∧ ∃ s, (((k, s) ∈ l) ∨ (s = State.empty ∧ ∀ x, (k, x) ∉ l)) ∧ s' = f s) ∨ ((k', s') ∈ l ∧ k' = k) := by
+def lookupA {κ} [DecidableEq κ] (k : κ) : List (κ × State) → Option State
+  | [] => none
+  | (k', s) :: t => if k' = k then some s else lookupA k t
+
+theorem lookupStatic_eq (k : Str) (ss : List (Str × State)) : lookupStatic k ss = lookupA k ss := by
+  induction ss with
+  | nil => rfl
+  | cons x t ih => obtain ⟨k', s⟩ := x; simp [lookupStatic, lookupA, ih]
+
+theorem lookupA_of_mem {κ} [DecidableEq κ] {l : List (κ × State)} {k s} (hnd : (l.map (·.1)).Nodup) (hm : (k, s) ∈ l) :
+    lookupA k l = some s := by
+  induction l with
+  | nil => cases hm
+  | cons x t ih =>
+    obtain ⟨k', s'⟩ := x
+    simp only [List.map_cons, List.nodup_cons] at hnd
+    rcases List.mem_cons.1 hm with heq | hm
+    · cases heq; simp [lookupA]
+    · have hne : k' ≠ k := by
+        intro h; subst h
+        exact hnd.1 (List.mem_map.2 ⟨(k', s), hm, rfl⟩)
+      simp [lookupA, hne, ih hnd.2 hm]
+
+theorem mem_of_lookupA {κ} [DecidableEq κ] {l : List (κ × State)} {k s} (h : lookupA k l = some s) : (k, s) ∈ l := by
+  induction l with
+  | nil => simp [lookupA] at h
+  | cons x t ih =>
+    obtain ⟨k', s'⟩ := x
+    simp only [lookupA] at h
+    split at h
+    · rename_i hk; subst hk; cases h; simp
+    · exact List.mem_cons_of_mem _ (ih h)
+
+theorem lookupA_none {κ} [DecidableEq κ] {l : List (κ × State)} {k} (h : lookupA k l = none) : ∀ s, (k, s) ∉ l := by
+  induction l with
+  | nil => simp
+  | cons x t ih =>
+    obtain ⟨k', s'⟩ := x
+    simp only [lookupA] at h
+    split at h
+    · cases h
+    · rename_i hk
+      intro s hm
+      rcases List.mem_cons.1 hm with heq | hm
+      · cases heq; exact hk rfl
+      · exact ih h s hm
+
+theorem keys_updAssoc {κ} [BEq κ] [LawfulBEq κ] [DecidableEq κ] (k : κ) (f : State → State) (l : List (κ × State)) :
+    (updAssoc k f l).map (·.1) = if k ∈ l.map (·.1) then l.map (·.1) else l.map (·.1) ++ [k] := by
+  induction l with
+  | nil => simp [updAssoc]
+  | cons x t ih =>
+    obtain ⟨k', s⟩ := x
+    by_cases hk : k' = k
+    · subst hk; simp [updAssoc]
+    · have hk' : ¬ k = k' := fun h => hk h.symm
+      simp only [updAssoc, beq_iff_eq, hk, if_false, List.map_cons, ih, List.mem_cons, hk', false_or]
+      split <;> simp
+
+theorem nodup_keys_updAssoc {κ} [BEq κ] [LawfulBEq κ] [DecidableEq κ] {k : κ} {f : State → State} {l : List (κ × State)}
+    (h : (l.map (·.1)).Nodup) : ((updAssoc k f l).map (·.1)).Nodup := by
+  rw [keys_updAssoc]
+  split
+  · exact h
+  · rename_i hk
+    exact List.nodup_append.2 ⟨h, by simp, by
+      intro a ha b hb
+      simp at hb; subst hb
+      intro hab; subst hab; exact hk ha⟩
+
+theorem mem_updAssoc {κ} [BEq κ] [LawfulBEq κ] [DecidableEq κ] {k : κ} {f : State → State} {l : List (κ × State)}
+    (hnd : (l.map (·.1)).Nodup) {k' s'} :
+    (k', s') ∈ updAssoc k f l ↔
+      (k' ≠ k ∧ (k', s') ∈ l) ∨ (k' = k ∧ s' = f ((lookupA k l).getD State.empty)) := by
   induction l with
   | nil =>
-    intro h
-    simp only [updAssoc, List.mem_singleton, Prod.mk.injEq] at h
-    exact .inr (.inl ⟨h.1, State.empty, .inr ⟨rfl, by simp⟩, h.2⟩)
+    simp only [updAssoc, List.mem_singleton, Prod.mk.injEq, lookupA, Option.getD_none]
+    constructor
+    · rintro ⟨h1, h2⟩; exact .inr ⟨h1, h2⟩
+    · rintro (⟨_, h⟩ | h)
+      · cases h
+      · exact h
   | cons x t ih =>
     obtain ⟨k1, s1⟩ := x
-    intro h
-    simp only [updAssoc] at h
-    split at h
-    · rename_i hk
-      have hk : k1 = k := by simpa using hk
-      subst hk
-      rcases List.mem_cons.1 h with heq | hm
-      · cases heq
-        exact .inr (.inl ⟨rfl, s1, .inl (by simp), rfl⟩)
-      · by_cases hkk : k' = k1
-        · exact .inr (.inr ⟨List.mem_cons_of_mem _ hm, hkk⟩)
-        · exact .inl ⟨List.mem_cons_of_mem _ hm, hkk⟩
-    · rename_i hk
-      have hk : k1 ≠ k := by simpa using hk
-      rcases List.mem_cons.1 h with heq | hm
-      · cases heq
-        exact .inl ⟨by simp, hk⟩
-      · rcases ih hm with ⟨hm', hne⟩ | ⟨he, s, hs, hs'⟩ | ⟨hm', he⟩
-        · exact .inl ⟨List.mem_cons_of_mem _ hm', hne⟩
-        · refine .inr (.inl ⟨he, s, ?_, hs'⟩)
-          rcases hs with hs | ⟨hs, hall⟩
-          · exact .inl (List.mem_cons_of_mem _ hs)
-          · refine .inr ⟨hs, ?_⟩
-            intro x hx
-            rcases List.mem_cons.1 hx with heq | hx
-            · cases heq; exact hk rfl
-            · exact hall x hx
-        · exact .inr (.inr ⟨List.mem_cons_of_mem _ hm', he⟩)
+    simp only [List.map_cons, List.nodup_cons] at hnd
+    by_cases hk : k1 = k
+    · subst hk
+      simp only [updAssoc, beq_self_eq_true, if_true, List.mem_cons, Prod.mk.injEq, lookupA, Option.getD_some]
+      constructor
+      · rintro (⟨h1, h2⟩ | hm)
+        · exact .inr ⟨h1, h2⟩
+        · have : k' ≠ k1 := by
+            intro h; subst h
+            exact hnd.1 (List.mem_map.2 ⟨(k', s'), hm, rfl⟩)
+          exact .inl ⟨this, .inr hm⟩
+      · rintro (⟨hne, (⟨h1, _⟩ | hm)⟩ | ⟨h1, h2⟩)
+        · exact absurd h1 hne
+        · exact .inr hm
+        · exact .inl ⟨h1, h2⟩
+    · simp only [updAssoc, beq_iff_eq, hk, if_false, List.mem_cons, Prod.mk.injEq, lookupA, ih hnd.2]
+      constructor
+      · rintro (⟨h1, h2⟩ | ⟨hne, hm⟩ | ⟨he, hs⟩)
+        · subst h1 h2; exact .inl ⟨hk, .inl ⟨rfl, rfl⟩⟩
+        · exact .inl ⟨hne, .inr hm⟩
+        · exact .inr ⟨he, hs⟩
+      · rintro (⟨hne, (⟨h1, h2⟩ | hm)⟩ | ⟨he, hs⟩)
+        · exact .inl ⟨h1, h2⟩
+        · exact .inr (.inl ⟨hne, hm⟩)
+        · exact .inr (.inr ⟨he, hs⟩)
+
+
+/-! ### `add` -/
+
+theorem InTrie.not_empty {ps r} : ¬ InTrie State.empty ps r := by
+  intro h
+  cases h with
+  | here h => cases h
+  | viaStatic h _ => cases h
+  | viaDyn h _ _ => cases h
+
+theorem add_nil (r : Rule) (rs ss ds) : State.add [] r (.node rs ss ds) = .node (rs ++ [r]) ss ds := by
+  simp [State.add]
+
+theorem add_static (c : Str) (ps : List Part) (r : Rule) (rs ss ds) :
+    State.add (.static c :: ps) r (.node rs ss ds) = .node rs (updAssoc c (State.add ps r) ss) ds := by
+  simp [State.add]
+
+theorem add_dyn (pre kind post final suffixed w) (ps : List Part) (r : Rule) (rs ss ds) :
+    State.add (.dyn pre kind post final suffixed w :: ps) r (.node rs ss ds) =
+      .node rs ss (updAssoc (.dyn pre kind post final suffixed w) (State.add ps r) ds) := by
+  simp [State.add]
+
+theorem WF.add {ps : List Part} {r : Rule} : ∀ {st : State}, WF st → WF (State.add ps r st) := by
+  induction ps with
+  | nil =>
+    intro st h
+    cases h with
+    | node h1 h2 h3 h4 h5 => rw [add_nil]; exact .node h1 h2 h3 h4 h5
+  | cons p ps ih =>
+    intro st h
+    cases h with
+    | @node rs ss ds h1 h2 h3 h4 h5 =>
+      cases p with
+      | static c =>
+        rw [add_static]
+        refine .node (nodup_keys_updAssoc h1) h2 h3 ?_ h5
+        intro k s hm
+        rcases (mem_updAssoc h1).1 hm with ⟨_, hm⟩ | ⟨_, hs⟩
+        · exact h4 k s hm
+        · subst hs
+          apply ih
+          cases hl : lookupA c ss with
+          | none => exact WF.empty
+          | some s0 => exact h4 c s0 (mem_of_lookupA hl)
+      | dyn pre kind post final suffixed w =>
+        rw [add_dyn]
+        refine .node h1 (nodup_keys_updAssoc h2) ?_ h4 ?_
+        · intro p s hm
+          rcases (mem_updAssoc h2).1 hm with ⟨_, hm⟩ | ⟨hp, _⟩
+          · exact h3 p s hm
+          · subst hp; rfl
+        · intro p s hm
+          rcases (mem_updAssoc h2).1 hm with ⟨_, hm⟩ | ⟨_, hs⟩
+          · exact h5 p s hm
+          · subst hs
+            apply ih
+            cases hl : lookupA _ ds with
+            | none => exact WF.empty
+            | some s0 => exact h5 _ s0 (mem_of_lookupA hl)
+
+theorem inTrie_add {ps : List Part} {r : Rule} : ∀ {st : State}, WF st → ∀ {ps' r'},
+    (InTrie (State.add ps r st) ps' r' ↔ InTrie st ps' r' ∨ (r' = r ∧ ps' = ps)) := by
+  induction ps with
+  | nil =>
+    intro st h ps' r'
+    cases st with
+    | node rs ss ds =>
+      rw [add_nil]
+      constructor
+      · intro hi
+        cases hi with
+        | here hm =>
+          rcases List.mem_append.1 hm with hm | hm
+          · exact .inl (.here hm)
+          · simp at hm; exact .inr ⟨hm, rfl⟩
+        | viaStatic hm hi => exact .inl (.viaStatic hm hi)
+        | viaDyn hm hd hi => exact .inl (.viaDyn hm hd hi)
+      · rintro (hi | ⟨rfl, rfl⟩)
+        · cases hi with
+          | here hm => exact .here (List.mem_append_left _ hm)
+          | viaStatic hm hi => exact .viaStatic hm hi
+          | viaDyn hm hd hi => exact .viaDyn hm hd hi
+        · exact .here (by simp)
+  | cons p ps ih =>
+    intro st h ps' r'
+    cases h with
+    | @node rs ss ds h1 h2 h3 h4 h5 =>
+      cases p with
+      | static c =>
+        rw [add_static]
+        have hchild : WF ((lookupA c ss).getD State.empty) := by
+          cases hl : lookupA c ss with
+          | none => exact WF.empty
+          | some s0 => exact h4 c s0 (mem_of_lookupA hl)
+        constructor
+        · intro hi
+          cases hi with
+          | here hm => exact .inl (.here hm)
+          | viaDyn hm hd hi => exact .inl (.viaDyn hm hd hi)
+          | @viaStatic _ _ _ k s ps'' _ hm hi =>
+            rcases (mem_updAssoc h1).1 hm with ⟨_, hm⟩ | ⟨hk, hs⟩
+            · exact .inl (.viaStatic hm hi)
+            · subst hk hs
+              rcases (ih hchild).1 hi with hi | ⟨rfl, rfl⟩
+              · cases hl : lookupA k ss with
+                | none => rw [hl] at hi; exact absurd hi InTrie.not_empty
+                | some s0 => rw [hl] at hi; exact .inl (.viaStatic (mem_of_lookupA hl) hi)
+              · exact .inr ⟨rfl, rfl⟩
+        · rintro (hi | ⟨rfl, rfl⟩)
+          · cases hi with
+            | here hm => exact .here hm
+            | viaDyn hm hd hi => exact .viaDyn hm hd hi
+            | @viaStatic _ _ _ k s ps'' _ hm hi =>
+              by_cases hk : k = c
+              · subst hk
+                have hl := lookupA_of_mem h1 hm
+                refine .viaStatic ((mem_updAssoc h1).2 (.inr ⟨rfl, rfl⟩)) ?_
+                rw [hl]
+                exact (ih (h4 k s hm)).2 (.inl hi)
+              · exact .viaStatic ((mem_updAssoc h1).2 (.inl ⟨hk, hm⟩)) hi
+          · refine .viaStatic ((mem_updAssoc h1).2 (.inr ⟨rfl, rfl⟩)) ?_
+            exact (ih hchild).2 (.inr ⟨rfl, rfl⟩)
+      | dyn pre kind post final suffixed w =>
+        rw [add_dyn]
+        have hchild : WF ((lookupA (Part.dyn pre kind post final suffixed w) ds).getD State.empty) := by
+          cases hl : lookupA (Part.dyn pre kind post final suffixed w) ds with
+          | none => exact WF.empty
+          | some s0 => exact h5 _ s0 (mem_of_lookupA hl)
+        constructor
+        · intro hi
+          cases hi with
+          | here hm => exact .inl (.here hm)
+          | viaStatic hm hi => exact .inl (.viaStatic hm hi)
+          | @viaDyn _ _ _ p' s ps'' _ hm hd hi =>
+            rcases (mem_updAssoc h2).1 hm with ⟨_, hm⟩ | ⟨hk, hs⟩
+            · exact .inl (.viaDyn hm hd hi)
+            · subst hk hs
+              rcases (ih hchild).1 hi with hi | ⟨rfl, rfl⟩
+              · cases hl : lookupA (Part.dyn pre kind post final suffixed w) ds with
+                | none => rw [hl] at hi; exact absurd hi InTrie.not_empty
+                | some s0 => rw [hl] at hi; exact .inl (.viaDyn (mem_of_lookupA hl) hd hi)
+              · exact .inr ⟨rfl, rfl⟩
+        · rintro (hi | ⟨rfl, rfl⟩)
+          · cases hi with
+            | here hm => exact .here hm
+            | viaStatic hm hi => exact .viaStatic hm hi
+            | @viaDyn _ _ _ p' s ps'' _ hm hd hi =>
+              by_cases hk : p' = Part.dyn pre kind post final suffixed w
+              · subst hk
+                have hl := lookupA_of_mem h2 hm
+                refine .viaDyn ((mem_updAssoc h2).2 (.inr ⟨rfl, rfl⟩)) rfl ?_
+                rw [hl]
+                exact (ih (h5 _ s hm)).2 (.inl hi)
+              · exact .viaDyn ((mem_updAssoc h2).2 (.inl ⟨hk, hm⟩)) hd hi
+          · refine .viaDyn ((mem_updAssoc h2).2 (.inr ⟨rfl, rfl⟩)) rfl ?_
+            exact (ih hchild).2 (.inr ⟨rfl, rfl⟩)
 
 end Wz.Routing
